@@ -111,6 +111,27 @@ def build_jobs(ck):
                 def f(lines=lines, unit=unit, tol=tol):
                     return fmt(list(prep_mod.prepare(list(l + '\n' for l in lines), Separator(), unit=unit, tolerant=tol)))
                 jobs.append(Job('prep', 'wordseg.prepare', ['-q', '-u', unit] + (['-t'] if tol else []) + ['@in.txt'], {'in.txt': fmt(lines)}, expect(f)))
+        # -g (gold file) with and without -t and -P on a text with a punctuated utterance:
+        # the gold file is gold() of exactly the utterances the prepared output keeps
+        plines = list(tags)
+        plines.insert(rng.randint(0, len(plines)), tags[0].replace(' ', ' ? ', 1))
+        if rng.random() < 0.5:
+            plines.insert(rng.randint(0, len(plines)), 'bad line')
+        for tol, allow in ((True, True), (True, False), (False, True)):
+            def fg(plines=plines, tol=tol, allow=allow):
+                src = [l + '\n' for l in plines]
+                out = list(prep_mod.prepare(src, Separator(), unit='phone', tolerant=tol, check_punctuation=not allow))
+
+                def ok(l):
+                    try:
+                        prep_mod.check_utterance(l.strip(), Separator(), check_punctuation=not allow)
+                        return True
+                    except ValueError:
+                        return False
+                kept = [l for l in src if ok(l)] if tol else src
+                return {'out': fmt(out), 'gold.txt': fmt(list(prep_mod.gold(kept, separator=Separator())))}
+            jobs.append(Job('prep', 'wordseg.prepare', ['-q'] + (['-t'] if tol else []) + (['-P'] if allow else []) + ['-g', '@gold.txt', '@in.txt'],
+                            {'in.txt': fmt(plines)}, expect(fg), outfiles=('gold.txt',)))
         # ---- eval
         text, gold, units = __import__('evalgen').random_triple(rng, ['a', 'b', 'c'], nutts=rng.randint(1, 5))
         inconsistent = rng.random() < 0.3
